@@ -125,9 +125,17 @@ def shards(tier, seed):
             total = ng_p ** ng_p
             first = ng_p
         if total > 3000:
-            # split the choice tree by the answers of the first two draws
-            for a in range(first):
-                for b in range(first):
+            # split the choice tree by the answers of the first two draws; the draws come in the order
+            # RDM groups (ng_r of them), then condition groups (ng_p of them) - with a single RDM group the
+            # second draw is already a condition draw and has ng_p answers, not ng_r
+            if routine == 'bootstrap_sample':
+                seq = [ng_r] * ng_r + [ng_p] * ng_p
+            elif routine == 'bootstrap_sample_rdm':
+                seq = [ng_r] * ng_r
+            else:
+                seq = [ng_p] * ng_p
+            for a in range(seq[0]):
+                for b in range(seq[1]):
                     out.append({'cfg': list(cfg), 'root': [a, b]})
         else:
             out.append({'cfg': list(cfg), 'root': []})
